@@ -398,4 +398,25 @@ theorem viewnames_perm_invariant (names names' : List Word) (hp : names.Perm nam
 
 example : makeViewnames [['T'], ['L','T'], ['L'], ['T','L']] true = makeViewnames [['L'], ['T'], ['L','T'], ['T','L']] true := by decide
 
+
+/-- an empty selection of paths has no views, with and without the reciprocity filter (the clean code returns `[]`; a version
+that unzips its argument first raised on it: seeded change C18-k) -/
+theorem viewnames_empty (u : Bool) : makeViewnames [] u = [] := by cases u <;> rfl
+
+/-- a single path gives its single view `X-X`, kept by the filter iff … it is there: one view in both cases -/
+theorem viewnames_single (w : Word) (u : Bool) : (makeViewnames [w] u).length = 1 := by
+  cases u
+  · simp [makeViewnames, allPairs, sortViews, insertView]
+  · have h := viewnames_unique_sublist [w]
+    have h1 : (makeViewnames [w] false).length = 1 := by simp [makeViewnames, allPairs, sortViews, insertView]
+    have hle := h.length_le
+    have hpos : 0 < (makeViewnames [w] true).length := by
+      have hv : (w, w) ∈ makeViewnames [w] false := by simp [makeViewnames, allPairs, sortViews, insertView]
+      rcases unique_covers (makeViewnames [w] false) (w, w) hv with h' | h'
+      · have : makeViewnames [w] true = filterUnique (makeViewnames [w] false) := by simp [makeViewnames]
+        rw [this]; exact List.length_pos_of_mem h'
+      · have : makeViewnames [w] true = filterUnique (makeViewnames [w] false) := by simp [makeViewnames]
+        rw [this]; exact List.length_pos_of_mem h'
+    omega
+
 end Arim.C18
